@@ -2288,7 +2288,7 @@ fn compile_fn(goenv: &GlobalGoEnv, gensym: &Gensym, f: anf::Fn) -> goast::Fn {
 
     let go_ret_ty = tast_ty_to_go_type(&f.ret_ty);
 
-    let is_entry = f.name == "main" || f.name.ends_with("::main");
+    let is_entry = f.name == "main";
     let patched_name = if is_entry {
         "main0".to_string()
     } else {
